@@ -57,7 +57,8 @@ def cli_job(job):
             diverged.append((k, ev["ev"], ev["path"], expect[k]))
         return script.get(k)
 
-    r = control.run_single(job["args"], stdin_bytes=job.get("stdin"), files=job.get("files"), decide=decide, dirs=job.get("dirs"))
+    r = control.run_single(job["args"], stdin_bytes=job.get("stdin"), files=job.get("files"), decide=decide, dirs=job.get("dirs"),
+                           env=job.get("env"), tmp_symlink=bool(job.get("tmp_symlink")))
     return {
         "code": r["code"],
         "stdout": r["stdout"],
